@@ -53,7 +53,7 @@ func propC16Running(r *Run) {
 		ncl := 2 + r.Choose("nclients", 5)
 		for i := 0; i < ncl; i++ {
 			var plan []*Call
-			for k := 0; k < 1+r.Choose("ncalls", 3); k++ {
+			for k, kN := 0, 1+r.Choose("ncalls", 3); k < kN; k++ {
 				u := targets[r.Choose("target", len(targets))]
 				c := &Call{Via: "agent", Agent: a.idx, User: u}
 				switch r.Choose("call-kind", 6) {
@@ -578,9 +578,9 @@ func propC08A(r *Run) {
 		cfgPath = a.cfgPath
 		w.fs.SyncAll()
 		pwn := 0
-		for i := 0; i < 2+r.Choose("nclients", 4); i++ {
+		for i, iN := 0, 2+r.Choose("nclients", 4); i < iN; i++ {
 			var plan []*Call
-			for k := 0; k < 1+r.Choose("ncalls", 4); k++ {
+			for k, kN := 0, 1+r.Choose("ncalls", 4); k < kN; k++ {
 				u := users[r.Choose("user", len(users))]
 				if r.Choose("kind", 3) == 0 {
 					plan = append(plan, &Call{Kind: "authenticate", Via: "agent", Agent: a.idx, User: u, PW: model[u].PW})
